@@ -64,9 +64,10 @@ func (s *rapidSrc) Repeat(actions map[string]func(), inv func()) {
 type staleReplay string
 
 type replaySrc struct {
-	c     *C
-	draws []Draw
-	pos   int
+	c          *C
+	draws      []Draw
+	pos        int
+	mismatches int
 }
 
 func (s *replaySrc) next(label string) (string, bool) {
@@ -75,7 +76,11 @@ func (s *replaySrc) next(label string) (string, bool) {
 	}
 	d := s.draws[s.pos]
 	if d.L != label {
-		panic(staleReplay(fmt.Sprintf("draw %d: recorded label %q, property asks for %q", s.pos, d.L, label)))
+		// the generator asks for a draw the recording does not have at this point (a draw added
+		// after the case was recorded): answer with the minimal value and keep the position, so
+		// that recorded cases survive additive generator changes
+		s.mismatches++
+		return "", false
 	}
 	s.pos++
 	s.c.rec(d.L, d.V)
